@@ -159,6 +159,10 @@ def check_ordered(run, F):
             if name in REORDER:
                 key = "R-ORDERED|%s|%s" % (path, name)
                 reason = run.excepted(key)
+                if not reason and name == "swap_remove" and n.get("args") and unwrap(n["args"][0]).get("k") == "lit" and unwrap(n["args"][0]).get("v") == 0:
+                    # swap_remove(0) and remove(0) differ only in the order of the elements left behind: where remove(0) is sanctioned because
+                    # the list has exactly one element (C04's list_or_value clause checks that test), so is swap_remove(0)
+                    reason = run.excepted("R-ORDERED|%s|remove" % path)
                 run.ob("R-ORDERED", "%s: %s on an ordered message list" % (path, name), bool(reason),
                        "%s.%s(..) can reorder or drop elements of a group/value list: %s" % (show(n["recv"])[:40], name, show(n)[:100]), site(body, n), key=key)
             else:
@@ -245,6 +249,27 @@ def check(run, views, tier):
                 if c[0] == "match" and c[1] == ("field", ("var", "self"), "value"):
                     arm = "Array" if "::Array" in c[2] else ("Collection" if "::Collection" in c[2] else "_")
             r = simp(p.ret)
+            conds_ = list(p.conds)
+            if r[0] != "ctor" and p.kind != "try":
+                # `let item = <Option expression>; if item.is_some() { index += 1 } item`: the returned Option under the test of its own
+                # presence is Some(<its content>) on one side and None on the other
+                for c in p.conds:
+                    if c[0] == "if" and is_call(c[1], "std::option::Option::<T>::is_some", "std::option::Option::<T>::is_none") and (c[1][2][0] is p.ret or same(c[1][2][0], p.ret)):
+                        present = c[2] if c[1][1].endswith("is_some") else (not c[2])
+                        x = p.ret
+                        if not present:
+                            r = ("ctor", "std::prelude::v1::None", [])
+                        elif is_call(x, "core::bool::<impl bool>::then_some") and len(x[2]) == 2:
+                            conds_.append(("if", x[2][0], True))         # (c).then_some(v) is Some exactly when c holds
+                            r = ("ctor", "std::prelude::v1::Some", [x[2][1]])
+                        elif is_call(x, "std::option::Option::<T>::map") and len(x[2]) == 2 and x[2][1][0] == "closure":
+                            cp = closure_paths(nb, x[2][1], [("ok?", x[2][0])])
+                            if len(cp) == 1:
+                                r = ("ctor", "std::prelude::v1::Some", [cp[0].ret])
+                        else:
+                            r = ("ctor", "std::prelude::v1::Some", [("ok?", x)])
+                        break
+            p = type("P", (), {"conds": conds_, "trace": p.trace, "kind": p.kind, "ret": p.ret})()
             incs = [t for t in p.trace if is_call(t, "<assignop>") and "index" in str(t[2][0][1])]
             assigns = [t for t in p.trace if is_call(t, "<assign>") and "index" in str(t[2][0][1])]
             is_some = r[0] == "ctor" and r[1].endswith("::Some")
@@ -252,6 +277,9 @@ def check(run, views, tier):
             if is_some:
                 arms[arm] += 1
                 ok = len(incs) == 1 and not assigns and incs[0][2][1] == ("lit", "AddAssign") and incs[0][2][2] == ("lit", 1)
+                if not ok and not incs and len(assigns) == 1 and assigns[0][2][1] == ("lit", 1) and \
+                        any(c[0] in ("if", "guard") and ((c[2] is True and c[1] == ("bin", "Eq", IDX, ("lit", 0))) or (c[2] is False and c[1] == ("bin", "Ne", IDX, ("lit", 0)))) for c in p.conds):
+                    ok = True           # `index = 1` under `index == 0` is `index += 1`
                 run.ob("R-CONTAINER", "iterator[%s]: Some path advances the index by exactly 1" % arm, ok,
                        "index updates on this path: %s [%s]" % ([tshow(t) for t in incs + assigns], pc), site(nb), key="R-CONTAINER|next|%s|progress" % arm)
                 el = r[2][0]
@@ -279,7 +307,7 @@ def check(run, views, tier):
                         if ent[0] == "proj" and is_call(ent[1], "std::iter::Iterator::nth"):
                             nth = ent[1]
                             ok_el = nth[2][1] == IDX and is_call(nth[2][0]) and nth[2][0][1] in ("std::collections::BTreeMap::<K, V, A>::iter",) and nth[2][0][2][0][0] == "proj"
-                    if is_call(base, "std::iter::Iterator::nth") or (base[0] == "proj" and is_call(base[1], "std::iter::Iterator::nth") and base[1][2][0][1].endswith("::values")):
+                    if is_call(base, "std::iter::Iterator::nth") or (base[0] in ("proj", "ok?") and is_call(base[1], "std::iter::Iterator::nth") and base[1][2][0][1].endswith("::values")):
                         nth = base if is_call(base) else base[1]
                         ok_el = nth[2][1] == IDX
                     run.ob("R-CONTAINER", "iterator[Collection]: yields the value of the index-th member in map order", ok_el,
